@@ -137,8 +137,11 @@ func genTx(pr *histProfile) func(t *rapid.T) hTx {
 		tx.Kind = rapid.SampledFrom(kinds).Draw(t, "kind")
 		tx.From = rapid.IntRange(0, simPoolSize-1).Draw(t, "from")
 		tx.To = rapid.IntRange(0, simPoolSize-1).Draw(t, "to")
-		if rapid.IntRange(0, 7).Draw(t, "tomod") == 0 {
+		switch rapid.IntRange(0, 15).Draw(t, "tomod") {
+		case 0, 1:
 			tx.To = 100 + rapid.IntRange(0, 3).Draw(t, "module")
+		case 2:
+			tx.To = 200 // the empty address: the first element of the address space, and a legal award recipient
 		}
 		// entropies as clients draw them: mostly of full 63-bit magnitude (beyond what a float64 holds exactly)
 		tx.Entropy = rapid.OneOf(rapid.Int64(), rapid.Int64Range(1<<53, 1<<63-1), rapid.Int64Range(-1<<63, -(1<<53))).Draw(t, "entropy")
